@@ -366,12 +366,20 @@ def scan_harness(tr, call, extra_decl=''):
                          extra_decl=extra_decl, pre_call='  g_p0 = CUR(&in); vf_exc.pending = 0; g_h = 0; g_i = 0;\n')
 
 
+def rule_traits():
+    """C11 premise for the roots that are rules (the others are internal helper functions): from the real traits in integer.hpp"""
+    return traits_of(NAME, {name: expr.replace('::match( in )', '') for name, tr, expr, extra in SCAN_ROOTS if expr.endswith('::match( in )')},
+                     includes=('tao/pegtl/contrib/integer.hpp',))
+
+
 def scan_jobs(tier):
     out = []
     for name, tr, expr, extra in SCAN_ROOTS:
         if not name.startswith(('mu_', 'urule_')):
             continue
         con = match_unsigned_contract(tr)
+        for c in (c11_leaf(rule_traits()[name]) if name in rule_traits() else []):
+            con.add(c)
         j = Job(name, NAME, name, con, ('C15', 'C02', 'C03', 'C06', 'C11'), prelude=prelude(tr) + SCAN_PRE,
                 harness=scan_harness(tr, 'w_ret = $ENTRY(&in)'),
                 loops={(r'internal::match_unsigned<', 1): '__CPROVER_assigns(IT_FIELDS(in))\n__CPROVER_loop_invariant(%s)' % scan_loop_inv(tr)},
@@ -437,7 +445,7 @@ def mc_contract(tr, kind, ct, mx, with_st):
     c.add(E('VALID_POST(in)', 'RC-VALID', ('C02', 'C03')))
     c.add(E('MONO(in)', 'RC-MONO', ('C02',)))
     c.add(E('(!vf_exc.pending && !RET) ==> ITER_UNCHANGED(in)', 'RC-REWIND', ('C02',)))
-    c.add(E('(!vf_exc.pending && RET) ==> PROGRESS(in)', 'RC-PROGRESS', ('C11',)))
+    c.add(E('(!vf_exc.pending && RET) ==> PROGRESS(in)', 'RC-PROGRESS', ('C15',)))
     for x in ex:
         c.add(x)
     c.add(E('!RET || vf_canary', 'canary_ok'))
@@ -477,6 +485,8 @@ def mc_jobs(tier):
         kind = 'throws' if name.startswith('mct_') else 'nothrow'
         with_st = not name.startswith('maxrule_')
         con = mc_contract(tr, kind, ct, mc, with_st)
+        for c in (c11_leaf(rule_traits()[name]) if name in rule_traits() else []):
+            con.add(c)
         fnpat = r'internal::match_and_convert_unsigned_with_maximum_%s<' % kind
         extra_decl = ('  %s st = 0;\n' % ct) if with_st else ''
         call = 'w_ret = $ENTRY(&in, &st)' if with_st else 'w_ret = $ENTRY(&in)'
